@@ -42,6 +42,11 @@ type C20Scenario struct {
 	Invalid string   `json:"invalid"` // "" or the way the configuration is broken
 	Streams int      `json:"streams"`
 	Seed    uint64   `json:"seed"`
+	// Reprocess: the parsed configuration object was already processed once for
+	// another server (a front end switching servers reassigns RemoteHost, as
+	// ck-client does for -s, and processes again): the second result must be
+	// that of the configuration as it now stands
+	Reprocess bool `json:"reprocess,omitempty"`
 }
 
 func (sc *C20Scenario) get(k string) (string, bool) {
@@ -57,6 +62,7 @@ var c20Unquoted = map[string]bool{"NumConn": true, "StreamTimeout": true, "KeepA
 
 func genC20(g *Gen) any {
 	sc := &C20Scenario{Seed: g.Rng.Uint64(), Syntax: []string{"json", "ssv"}[g.Rng.IntN(2)], Streams: g.Int(1, 3)}
+	defer func() { sc.Reprocess = sc.Seed%4 == 0 }()
 	add := func(k, v string) { sc.Opts = append(sc.Opts, C20Opt{k, v}) }
 	maybe := func(p float64, k string, vals ...string) {
 		if g.Bool(p) {
@@ -259,6 +265,12 @@ func runC20(c *Ctx, scAny any) {
 		if err != nil {
 			p.err = err
 			return
+		}
+		if sc.Reprocess {
+			host := raw.RemoteHost
+			raw.RemoteHost = "198.51.100.7"
+			raw.ProcessRawConfig(world)
+			raw.RemoteHost = host
 		}
 		p.local, p.remote, p.auth, p.err = raw.ProcessRawConfig(world)
 		return
